@@ -32,6 +32,7 @@ type AuthOpts struct {
 	RequestTimeout   time.Duration
 	CookieDomain     string
 	IdP              *FakeIdP // reuse an existing fake IdP
+	Scheme           string   // SERVER_SCHEME ("" = sso's default, https)
 }
 
 // AuthStack is a running sso-auth built the way cmd/sso-auth builds it (NewAuthenticatorMux,
@@ -109,6 +110,9 @@ func NewAuthStack(o AuthOpts) (*AuthStack, error) {
 	cfg.SessionConfig.CookieConfig.Secret = cookieSecret
 	cfg.SessionConfig.CookieConfig.Domain = o.CookieDomain
 	cfg.ServerConfig.Host = o.Host
+	if o.Scheme != "" {
+		cfg.ServerConfig.Scheme = o.Scheme
+	}
 	cfg.ServerConfig.TimeoutConfig.Request = o.RequestTimeout
 	cfg.MetricsConfig.StatsdConfig.Host = "127.0.0.1"
 	if err := cfg.Validate(); err != nil {
